@@ -5,6 +5,7 @@ import (
 
 	"github.com/goghcrow/yae/util"
 	"github.com/goghcrow/yae/val"
+	"github.com/goghcrow/yae/verifhook"
 )
 
 type Val struct {
@@ -25,6 +26,7 @@ func (r *Record) Clear() {
 }
 
 func (r *Record) Rec(v *val.Val, col int) {
+	verifhook.Touch(r, true, "debug.Record.Rec")
 	for _, it := range r.vs {
 		if it.col == col {
 			r.Rec(v, col+1)
